@@ -26,8 +26,7 @@ Record bstate := mkS { tip : option revid; revno : nat; tagd : tagdict }.
 Record tstate := mkT { tparents : list revid; tfiles : list (nat * nat) }.
 
 Inductive error :=
-| BoundBranchOutOfDate | LocalRequiresBoundBranch | RevisionNotPresent | GhostRevisionUnusableHere
-| LockContention.
+| BoundBranchOutOfDate | LocalRequiresBoundBranch | RevisionNotPresent | GhostRevisionUnusableHere.
 Inductive result (A : Type) := Ok (a : A) | Err (e : error).
 Arguments Ok {A} a.
 Arguments Err {A} e.
@@ -112,18 +111,9 @@ Definition set_parent_ids (g : dag) (t : tstate) (ps : list revid) : result tsta
   | [] => Ok (mkT [] (tfiles t))
   end.
 
-(* remove_tags runs last.  uncommit() still holds the write lock of ITS master
-   object, and BasicTags.delete_tag opens the master again
-   (branch.get_master_branch()) and write-locks it: LockContention (surfacing
-   as a pyo3 PanicException) as soon as one tag is deleted.
-   [m] = the master uncommit() locked (None when unbound or local=True) *)
-Definition tag_step (m : option bstate) (keep_tags : bool) (gone : list nat) : result unit :=
-  match m with
-  | Some _ => if negb keep_tags && negb (match gone with [] => true | _ => false end)
-              then Err LockContention else Ok tt
-  | None => Ok tt
-  end.
-
+(* remove_tags runs last; for a bound branch uncommit() first releases its own
+   lock on the master (commit 495a382), so that BasicTags.delete_tag can lock the
+   master and delete the tag there too *)
 (* uncommit(branch, revno=new_revno+1, tree=, local=, keep_tags=) *)
 Definition uncommit (g : dag) (b : bstate) (t : option tstate) (master : option bstate)
                     (new_revno : nat) (keep_tags local : bool)
@@ -149,19 +139,11 @@ Definition uncommit (g : dag) (b : bstate) (t : option tstate) (master : option 
                                  else mkS new_tip new_revno (mtags mb))
               end in
             match t with
-            | None =>
-                match tag_step m keep_tags gone with
-                | Err e => Err e
-                | Ok _ => Ok (mkS new_tip new_revno tags', None, master')
-                end
+            | None => Ok (mkS new_tip new_revno tags', None, master')
             | Some ts =>
                 match set_parent_ids g ts ps with
                 | Err e => Err e
-                | Ok ts' =>
-                    match tag_step m keep_tags gone with
-                    | Err e => Err e
-                    | Ok _ => Ok (mkS new_tip new_revno tags', Some ts', master')
-                    end
+                | Ok ts' => Ok (mkS new_tip new_revno tags', Some ts', master')
                 end
             end
         end
@@ -182,7 +164,6 @@ Definition error_name (e : error) : string :=
   | LocalRequiresBoundBranch => "LocalRequiresBoundBranch"
   | RevisionNotPresent => "RevisionNotPresent"
   | GhostRevisionUnusableHere => "GhostRevisionUnusableHere"
-  | LockContention => "LockContention"
   end.
 Definition otip (t : option revid) : obs := oopt onat t.
 Definition otags (d : tagdict) : obs := olist (opair onat onat) d.
